@@ -13,7 +13,7 @@ def pure(state, action, next_state, rng, s0, n0):
 
 
 @contract(target=TF + 'overlap', args=dict(SAN, object_type='Class', rng='Rng'), kwonly=['object_type', 'rng'],
-          props=['C01', 'C03', 'C12'])
+          props=['C02', 'C01', 'C03', 'C12'])
 def t_overlap(state, action, next_state, object_type, rng):
     requires(in_grid(next_state.grid, next_state.agent.position))
     s0 = old(state)
@@ -23,7 +23,7 @@ def t_overlap(state, action, next_state, object_type, rng):
     pure(state, action, next_state, rng, s0, n0)
 
 
-@contract(target=TF + 'reach_exit', args=dict(SAN, rng='Rng'), kwonly=['rng'], props=['C01', 'C03', 'C12'])
+@contract(target=TF + 'reach_exit', args=dict(SAN, rng='Rng'), kwonly=['rng'], props=['C02', 'C01', 'C03', 'C12'])
 def t_reach_exit(state, action, next_state, rng):
     requires(in_grid(next_state.grid, next_state.agent.position))
     s0 = old(state)
@@ -33,7 +33,7 @@ def t_reach_exit(state, action, next_state, rng):
     pure(state, action, next_state, rng, s0, n0)
 
 
-@contract(target=TF + 'bump_moving_obstacle', args=dict(SAN, rng='Rng'), kwonly=['rng'], props=['C01', 'C03', 'C12'])
+@contract(target=TF + 'bump_moving_obstacle', args=dict(SAN, rng='Rng'), kwonly=['rng'], props=['C02', 'C01', 'C03', 'C12'])
 def t_bump_moving_obstacle(state, action, next_state, rng):
     requires(in_grid(next_state.grid, next_state.agent.position))
     s0 = old(state)
@@ -43,7 +43,7 @@ def t_bump_moving_obstacle(state, action, next_state, rng):
     pure(state, action, next_state, rng, s0, n0)
 
 
-@contract(target=TF + 'bump_into_wall', args=dict(SAN, rng='Rng'), kwonly=['rng'], props=['C01', 'C03', 'C12'])
+@contract(target=TF + 'bump_into_wall', args=dict(SAN, rng='Rng'), kwonly=['rng'], props=['C02', 'C01', 'C03', 'C12'])
 def t_bump_into_wall(state, action, next_state, rng):
     requires(in_grid(state.grid, state.agent.position))
     s0 = old(state)
